@@ -492,6 +492,11 @@ func (f *File) Write(b []byte) (int, error) {
 	if f.real != nil {
 		return f.real.Write(b)
 	}
+	if controlled.Load() {
+		// a file write is a visible operation: another thread may run between two writes of one thread (e.g. between a
+		// marker record and the record it announces)
+		point(OpYield, f.fs, func() bool { return true })
+	}
 	f.fs.mu.Lock()
 	defer f.fs.mu.Unlock()
 	if f.closed {
